@@ -331,8 +331,10 @@ class Normaliser:
             if isinstance(test, ast.BinOp) and isinstance(test.op, ast.Mod):
                 c = self.norm(test.right, env).const_value()
                 x = self.norm(test.left, env)
-                if c and (a - b) == Poly.const(1) and b == self._floordiv(x, c):
-                    return Poly.atom('ceil%d(%s)' % (c, x))
+                if c and (a - b) == Poly.const(1):
+                    k = (b - self._floordiv(x, c))
+                    if k.is_const():
+                        return Poly.atom('ceil%d(%s)' % (c, x)) + k
         except NotInt:
             return None
         return None
